@@ -103,6 +103,7 @@ type FnCtx struct {
 	ghostFns    map[string]string // ghost function name -> current SMT symbol
 	axiomsDone  map[string]bool
 	frameExcept []Val
+	dispatchDepth int
 }
 
 type KnownFinding struct {
